@@ -3,10 +3,12 @@ package main
 import (
 	"context"
 	"fmt"
+	"io"
 	"net"
 	"strings"
 	"sync"
 	"time"
+	"verif/refcodec"
 
 	apiclient "github.com/enfein/mieru/v3/apis/client"
 	"github.com/enfein/mieru/v3/apis/model"
@@ -523,5 +525,106 @@ func init() {
 			return 600
 		}
 		return 32
+	}})
+}
+
+// c10APIAcceptCase: the embedding server API. A user with a valid credential
+// opens sessions and never sends the request that Accept waits for. Other users'
+// new connections must still be accepted promptly.
+func c10APIAcceptCase(c *Ctx) *Result {
+	r := rngFor(c.Seed, "C10-api", c.Idx)
+	nsilent := pick(r, 1, 2, 3)
+	params := map[string]interface{}{"silent_sessions": nsilent}
+	c.Out.Start("C10", fmt.Sprintf("C10-api/%d/%d", c.Seed, c.Idx), c.Seed, params)
+	res := &Result{Params: params, Obs: map[string]float64{}}
+	env, err := newAPIEnv(false, 0, false, nil, nil, nil)
+	if err != nil {
+		res.Verdict, res.Detail = Inconclusive, err.Error()
+		return res
+	}
+	defer env.close()
+	type acc struct {
+		port int
+		at   time.Time
+	}
+	accCh := make(chan acc, 16)
+	go func() {
+		for {
+			sc, req, err := env.srv.Accept()
+			if err != nil {
+				if !env.srv.IsRunning() {
+					return
+				}
+				continue
+			}
+			accCh <- acc{req.DstAddr.Port, time.Now()}
+			resp := &model.Response{Reply: 0, BindAddr: model.AddrSpec{IP: net.IPv4(203, 0, 113, 9), Port: 1}}
+			resp.WriteToSocks5(sc)
+			go func() { time.Sleep(time.Second); sc.Close() }()
+		}
+	}()
+	// bob opens sessions and stays silent (reference client: an open request without any payload)
+	cred := refcodec.NewCred("bob", "bob-secret")
+	hep := env.net.Endpoint("10.0.6.6")
+	for i := 0; i < nsilent; i++ {
+		conn, err := hep.DialContext(context.Background(), "tcp", "10.0.0.1:443")
+		if err != nil {
+			res.Verdict, res.Detail = Inconclusive, err.Error()
+			return res
+		}
+		defer conn.Close()
+		tc := refcodec.NewTCPClient(cred, time.Now().Unix(), "bob")
+		conn.Write(tc.Enc.Segment(refcodec.Meta{Type: refcodec.OpenSessionRequest, Timestamp: refcodec.Minute(time.Now().Unix()), SessionID: uint32(9000 + i), Seq: 0}, nil, refcodec.BuildOpts{}))
+		go io.Copy(io.Discard, conn)
+	}
+	res.Obs["hostile_messages"] = float64(nsilent)
+	time.Sleep(200 * time.Millisecond)
+	// alice connects
+	t0 := time.Now()
+	addr, _ := destFor("ipv4", 7)
+	dialDone := make(chan error, 1)
+	go func() {
+		ctx, cancel := context.WithTimeout(context.Background(), 120*time.Second)
+		defer cancel()
+		cn, err := env.cli.DialContext(ctx, addr)
+		if err == nil {
+			cn.Close()
+		}
+		dialDone <- err
+	}()
+	var took time.Duration
+	got := false
+	deadline := time.After(150 * time.Second)
+	for !got {
+		select {
+		case a := <-accCh:
+			if a.port == 20007 {
+				took = a.at.Sub(t0)
+				got = true
+			}
+		case <-deadline:
+			took = 150 * time.Second
+			got = true
+		}
+	}
+	derr := <-dialDone
+	res.Obs["canary_completed"] = 1
+	res.Obs["api_accept_latency_s"] = took.Seconds()
+	res.Shape = shapeHash("apiaccept", nsilent)
+	if isVirtual && (took > 5*time.Second || derr != nil) {
+		res.Verdict, res.Sig = Violated, "C10|api|other-users-stalled|accept-waits-for-a-silent-session"
+		res.Detail = fmt.Sprintf("server API: with %d sessions of bob that never send their request, alice's new connection was handed to the application %.1f virtual seconds after she dialled (dial error: %v); Accept reads each request inline with a 10 s time-out", nsilent, took.Seconds(), derr)
+		return res
+	}
+	res.Verdict = Held
+	return res
+}
+
+func init() {
+	register(&Scenario{Name: "C10-api", Run: c10APIAcceptCase, Cases: func(t string) int {
+		if t == "thorough" {
+			return 60
+		}
+		return 6
 	}})
 }
